@@ -123,8 +123,87 @@ def node_wiring(ctx):
                      confirm=lambda: ctx.monitor("m_yaml", "search", 1000, ctx.seed))
 
 
+def tokenizer_termination(ctx):
+    """"never hangs", tokenizer part, decided on the real token table and loop of declast.tokenize:
+    (a) every token pattern consumes at least one character (a nullable pattern would stop `pos` from advancing: endless loop);
+    (b) no token pattern nests an unbounded repetition inside an unbounded repetition (the shape (x+)* that makes
+        Python's backtracking matcher exponential on a failing match; overlapping alternatives such as (a|a)* are not judged);
+    (c) the loop advances: its body ends with `pos = mo.end()` ; `mo = get_token(s, pos)`."""
+    import ast
+    import os
+    try:
+        import re._parser as sre_parse
+        import re._constants as sre_c
+    except ImportError:          # Python < 3.11
+        import sre_parse
+        import sre_constants as sre_c
+    from checklib import REPO
+    tree = ast.parse(open(os.path.join(REPO, "shroud/declast.py")).read())
+    spec = None
+    for n in tree.body:
+        if isinstance(n, ast.Assign) and any(isinstance(t, ast.Name) and t.id == "token_specification" for t in n.targets):
+            try:
+                spec = ast.literal_eval(n.value)
+            except ValueError:
+                spec = None
+    ctx.item("C17/tokenizer/token_specification:literal-table", bool(spec) and len(spec) >= 10,
+             "token_specification is not a literal list of (name, pattern) pairs")
+    confirm = lambda: ctx.monitor("m_parser", "search", 400, ctx.seed)
+    UNB = sre_c.MAXREPEAT
+
+    def subpatterns(item):
+        op, av = item
+        if op in (sre_c.MAX_REPEAT, sre_c.MIN_REPEAT) or str(op) == "POSSESSIVE_REPEAT":
+            return [av[2]]
+        if op == sre_c.SUBPATTERN:
+            return [av[-1]]
+        if op == sre_c.BRANCH:
+            return list(av[1])
+        if str(op) in ("ASSERT", "ASSERT_NOT", "ATOMIC_GROUP"):
+            return [av[1] if isinstance(av, tuple) else av]
+        return []
+
+    def bad_shape(pat, inside_unbounded):
+        for item in pat:
+            op, av = item
+            rep = op in (sre_c.MAX_REPEAT, sre_c.MIN_REPEAT)
+            unb = rep and av[1] == UNB
+            if inside_unbounded and unb:
+                return "an unbounded repetition inside an unbounded repetition"
+            for sp in subpatterns(item):
+                r = bad_shape(sp, inside_unbounded or unb)
+                if r:
+                    return r
+        return None
+    for name, pattern in spec or []:
+        try:
+            parsed = sre_parse.parse(pattern)
+        except Exception as e:
+            ctx.item("C17/tokenizer/pattern:%s:parses" % name, False, "pattern %r does not compile: %s" % (pattern, e))
+            continue
+        lo, _ = parsed.getwidth()
+        ctx.item("C17/tokenizer/pattern:%s:consumes-a-character" % name, lo >= 1,
+                 "token pattern %s = %r can match the empty string: tokenize() would not advance" % (name, pattern),
+                 sample={"token": name, "pattern": pattern, "min_width": lo}, confirm=confirm)
+        why = bad_shape(parsed, False)
+        ctx.item("C17/tokenizer/pattern:%s:linear-time-shape" % name, why is None,
+                 "token pattern %s = %r has %s: a failing match backtracks exponentially (the tokenizer hangs on, e.g., an "
+                 "unterminated literal)" % (name, pattern, why), sample={"token": name, "pattern": pattern}, confirm=confirm)
+    fn = [n for n in tree.body if isinstance(n, ast.FunctionDef) and n.name == "tokenize"]
+    ok = False
+    if fn:
+        loops = [n for n in fn[0].body if isinstance(n, ast.While)]
+        if len(loops) == 1 and ast.unparse(loops[0].test) == "mo is not None" and len(loops[0].body) >= 2:
+            tail = [ast.unparse(x) for x in loops[0].body[-2:]]
+            ok = tail == ["pos = mo.end()", "mo = get_token(s, pos)"]
+            ok = ok and not any(isinstance(x, ast.Continue) for st in loops[0].body for x in ast.walk(st))
+    ctx.item("C17/tokenizer/tokenize:loop-advances", ok,
+             "the tokenize loop does not end every iteration with pos = mo.end(); mo = get_token(s, pos)", confirm=confirm)
+
+
 def run(ctx):
     ctx.pyvc(G.UNITS + P.UNITS, MONITORS)
+    tokenizer_termination(ctx)
     literal_error_msg_sites(ctx)
     node_wiring(ctx)
     # bounded stand-in for the YAML structure (never counted as proved)
@@ -143,8 +222,10 @@ def run(ctx):
         "iteration over attrs: arbitrary list of non-empty keys",
     ]
     ctx.not_covered += [
-        "parser units other than have/mustbe/error_msg/decl_statement (sub-parsers are used through the contract "
-        "'consumes >= 0 tokens, may raise RuntimeError'), tokenizer, YAML structure validation: bounded monitor only",
+        "parser units other than next/have/mustbe/error_msg/decl_statement (sub-parsers are used through the contract "
+        "'consumes >= 0 tokens, may raise RuntimeError'); termination of the recursive-descent parser itself; "
+        "YAML structure validation: bounded monitor only",
+        "tokenizer: termination only (non-nullable linear-shape patterns, advancing loop); token classification is not specified",
         "PyYAML errors; emitters",
     ]
     if ctx.tier == "thorough":
